@@ -127,3 +127,32 @@ pub struct W2NotNonePrivate;
 /// let _ = owned.weighted_mean_axis(Axis(0), &array![1., 2.]);
 /// ```
 pub struct W6Instantiations;
+
+/// W19 — parametricity: the selecting strategies (and the selection beneath them) are usable with an element type that offers
+/// nothing but `Ord + Clone`, so they can only compare and copy elements and therefore commute with every strictly
+/// increasing relabelling; the arithmetic strategies are not (twin: same program, `Midpoint`).
+/// ```
+/// use ndarray::array;
+/// use ndarray_stats::interpolate::{Higher, Lower, Nearest};
+/// use ndarray_stats::{Quantile1dExt, QuantileExt, Sort1dExt};
+/// use noisy_float::types::n64;
+/// #[derive(Clone, PartialEq, Eq, PartialOrd, Ord)]
+/// struct Opaque(u8);
+/// let mut a = array![Opaque(3), Opaque(1), Opaque(2)];
+/// let _ = a.quantile_mut(n64(0.5), &Lower);
+/// let _ = a.quantile_mut(n64(0.5), &Higher);
+/// let _ = a.quantile_mut(n64(0.5), &Nearest);
+/// let _ = a.get_from_sorted_mut(1);
+/// let _ = a.get_many_from_sorted_mut(&array![0usize, 2]);
+/// ```
+/// ```compile_fail,E0277
+/// use ndarray::array;
+/// use ndarray_stats::interpolate::Midpoint;
+/// use ndarray_stats::Quantile1dExt;
+/// use noisy_float::types::n64;
+/// #[derive(Clone, PartialEq, Eq, PartialOrd, Ord)]
+/// struct Opaque(u8);
+/// let mut a = array![Opaque(3), Opaque(1), Opaque(2)];
+/// let _ = a.quantile_mut(n64(0.5), &Midpoint);
+/// ```
+pub struct W19Parametric;
